@@ -37,6 +37,17 @@ type Clause struct {
 	Line  int
 }
 
+// Pred is a named specification predicate: //@ pred name(a, b) = expr
+type Pred struct {
+	Name   string
+	Params []string
+	Text   string
+	Expr   ast.Expr
+	Pkg    string
+}
+
+var specPreds = map[string]*Pred{}
+
 type Contract struct {
 	Func      string
 	Requires  []*Clause
@@ -49,6 +60,7 @@ type Contract struct {
 	Fresh     bool // result pointers are freshly allocated
 	Pure      bool
 	Nullable  map[string]bool
+	Outbuf    map[string]bool
 	File      string
 }
 
@@ -62,7 +74,24 @@ func parseContractFile(path, pkgPath string) ([]*Contract, error) {
 	var out []*Contract
 	var cur *Contract
 	var pending *Clause
+	var pendingPred *Pred
+	flushPred := func() error {
+		if pendingPred == nil {
+			return nil
+		}
+		pd := pendingPred
+		pendingPred = nil
+		e, err := parser.ParseExpr(rewriteSpec(pd.Text))
+		if err != nil {
+			return fmt.Errorf("%s: pred %s: %v", path, pd.Name, err)
+		}
+		pd.Expr = e
+		return nil
+	}
 	flush := func() error {
+		if err := flushPred(); err != nil {
+			return err
+		}
 		if pending == nil {
 			return nil
 		}
@@ -98,6 +127,10 @@ func parseContractFile(path, pkgPath string) ([]*Contract, error) {
 			}
 			continue
 		}
+		if strings.HasPrefix(body, "    ") && pendingPred != nil {
+			pendingPred.Text += " " + strings.TrimSpace(body)
+			continue
+		}
 		if strings.HasPrefix(body, "    ") && pending != nil { // continuation
 			pending.Text += " " + strings.TrimSpace(body)
 			continue
@@ -112,7 +145,7 @@ func parseContractFile(path, pkgPath string) ([]*Contract, error) {
 		word, rest := splitWord(body)
 		switch word {
 		case "func":
-			cur = &Contract{Func: pkgPath + "." + strings.TrimSpace(rest), Loops: map[int][]*Clause{}, File: path, Nullable: map[string]bool{}}
+			cur = &Contract{Func: pkgPath + "." + strings.TrimSpace(rest), Loops: map[int][]*Clause{}, File: path, Nullable: map[string]bool{}, Outbuf: map[string]bool{}}
 			out = append(out, cur)
 		case "requires", "ensures", "modifies", "inputsize":
 			if cur == nil {
@@ -142,9 +175,29 @@ func parseContractFile(path, pkgPath string) ([]*Contract, error) {
 			_ = saved
 			// register now; parse on flush through closure below
 			cc.Loops[nn] = append(cc.Loops[nn], cl)
+		case "pred":
+			// pred name(a, b) = expr   (package-wide; continued lines allowed via pending mechanism)
+			eq := strings.Index(rest, "=")
+			op := strings.Index(rest, "(")
+			cp := strings.Index(rest, ")")
+			if eq < 0 || op < 0 || cp < op || eq < cp {
+				return nil, fmt.Errorf("%s:%d: pred syntax: pred name(a, b) = expr", path, ln+1)
+			}
+			pd := &Pred{Name: strings.TrimSpace(rest[:op]), Text: strings.TrimSpace(rest[eq+1:]), Pkg: pkgPath}
+			for _, a := range strings.Split(rest[op+1:cp], ",") {
+				if a = strings.TrimSpace(a); a != "" {
+					pd.Params = append(pd.Params, strings.Fields(a)[0])
+				}
+			}
+			pendingPred = pd
+			specPreds[pd.Name] = pd
 		case "nullable":
 			for _, n := range strings.Fields(strings.ReplaceAll(rest, ",", " ")) {
 				cur.Nullable[n] = true
+			}
+		case "outbuf":
+			for _, n := range strings.Fields(strings.ReplaceAll(rest, ",", " ")) {
+				cur.Outbuf[n] = true
 			}
 		case "inline":
 			cur.Inline = true
